@@ -8,6 +8,9 @@ import (
 	"fmt"
 	"math/rand/v2"
 	"net"
+	"net/http"
+	"net/http/httptest"
+	"os"
 	"strconv"
 	"strings"
 	"sync"
@@ -69,6 +72,9 @@ func TestC15(t *testing.T) {
 		}
 		synctest.Test(t, func(t *testing.T) { c15Run(t, run, sc) })
 	}
+	if desc := map[string]any{"kind": "real-listener-silent-target"}; run.Mine(n+1000, desc) {
+		c15Live(t, run, desc)
+	}
 	for k := 0; k < run.N(3, 48); k++ {
 		desc := map[string]any{"idx": k, "kind": "many-requests-at-a-silent-target"}
 		if !run.Mine(n+k, desc) {
@@ -76,6 +82,76 @@ func TestC15(t *testing.T) {
 		}
 		synctest.Test(t, func(t *testing.T) { c15Burst(t, run, k, run.Rand(n+k)) })
 	}
+}
+
+// c15Live: the same through the proxy's real listener (real sockets, real time; the virtual-time
+// worlds serve the proxy's handler from their own http.Server, so nothing that is configured on the
+// real listeners is in their picture). One request at a target that stays silent, with a target
+// timeout of 33 seconds: the client is owed a well-formed 504 then, not a dropped connection.
+func c15Live(t *testing.T, run *Run, desc any) {
+	run.Eval()
+	RestoreHTTPDefaults()
+	dir, err := os.MkdirTemp("", "vh-c15-")
+	if err != nil {
+		run.Inconclusive("tempdir: %v", err)
+		return
+	}
+	defer os.RemoveAll(dir)
+	os.Setenv("XDG_RUNTIME_DIR", dir)
+	release := make(chan struct{})
+	tgt := httptest.NewServer(http.HandlerFunc(func(w http.ResponseWriter, r *http.Request) {
+		if r.URL.Path == "/up" {
+			w.WriteHeader(200)
+			return
+		}
+		select { // silent
+		case <-release:
+		case <-r.Context().Done():
+		}
+	}))
+	defer func() { close(release); tgt.CloseClientConnections(); tgt.Close() }()
+	cfg := &server.Config{Bind: "127.0.0.1", HttpPort: 0, HttpsPort: 0, AlternateConfigDir: dir}
+	router := server.NewRouter(cfg.StatePath())
+	srv := server.NewServer(cfg, router)
+	if err := srv.Start(); err != nil {
+		run.Inconclusive("server start: %v", err)
+		return
+	}
+	defer srv.Stop()
+	const timeout = 33 * time.Second
+	to := server.TargetOptions{HealthCheckConfig: server.HealthCheckConfig{Path: "/up", Interval: time.Second, Timeout: time.Second}, ResponseTimeout: timeout}
+	if err := router.DeployService("quiet", []string{strings.TrimPrefix(tgt.URL, "http://")}, server.ServiceOptions{Hosts: []string{"quiet.example"}}, to, 5*time.Second, time.Second); err != nil {
+		run.Inconclusive("deploy: %v", err)
+		return
+	}
+	conn, err := net.DialTimeout("tcp", fmt.Sprintf("127.0.0.1:%d", srv.HttpPort()), 5*time.Second)
+	if err != nil {
+		run.Inconclusive("dial: %v", err)
+		return
+	}
+	defer conn.Close()
+	conn.SetDeadline(time.Now().Add(timeout + 60*time.Second))
+	t0 := time.Now()
+	fmt.Fprintf(conn, "GET /quiet HTTP/1.1\r\nHost: quiet.example\r\n\r\n")
+	m, rerr := readRawResponse(bufio.NewReader(conn), "GET")
+	took := time.Since(t0)
+	if rerr != nil || m == nil {
+		run.Violate("live:no-wellformed-response", fmt.Sprintf("real listener, silent target, target timeout %v: after %v the client got no parsable response (%v) instead of a 504", timeout, took.Round(100*time.Millisecond), rerr), desc, nil)
+		return
+	}
+	if m.Status() != 504 || !strings.Contains(string(m.Body), "504") {
+		run.Violate("live:wrong-response", fmt.Sprintf("real listener, silent target, target timeout %v: status %d after %v, body %q", timeout, m.Status(), took.Round(100*time.Millisecond), trunc(string(m.Body), 80)), desc, nil)
+		return
+	}
+	if took < timeout-2*time.Second {
+		run.Violate("live:too-early", fmt.Sprintf("504 after %v with a target timeout of %v", took, timeout), desc, nil)
+		return
+	}
+	if took > timeout+20*time.Second {
+		run.Inconclusive("live 504 after %v (target timeout %v): machine too loaded to judge promptness", took, timeout)
+		return
+	}
+	run.Class("live|silent-target|504")
 }
 
 // c15Burst: "promptly ... never hangs" under load: many requests are in flight at one target that
